@@ -343,7 +343,7 @@ Proof.
      end = (m', r) -> ilen m' <= ilen m).
   { clear m' r. intros m' r E. destruct (m_total m); [inversion E; lia|].
     destruct (m_cache m) eqn:Ec; [inversion E; lia|]. rewrite <- Ec in E. apply init_loop_ilen in E. exact E. }
-  destruct (if _ then _ else _) as [f|]; [|apply Tail].
+  destruct (if first && _ && _ then find_space ns_StartTLS (c_feats c) else None) as [f|]; [|apply Tail].
   destruct (f_neg f); [|apply Tail]. apply init_loop_ilen.
 Qed.
 
